@@ -102,6 +102,9 @@ class Verifier(Dyn):
             self.class_defaults(binding[names[0]])
         for cl in c.requires:
             self.assume_clause(cl, spec_env=binding)
+        for cl in c.labels.get("entry_axioms", []):
+            # facts about the parameters that hold for every Python value (class facts): assumed at entry, not obligations of callers
+            self.assume_clause(cl, spec_env=binding)
         if not self.feasible(z3.BoolVal(True)):
             self.vacuous = True
             raise PathEnd("requires unsatisfiable")
